@@ -62,11 +62,23 @@ pub fn frame_value(n: f64, k: i32) -> f64 {
     }
 }
 
-/// frame 2000 ("ULP slivers"): x = 1 + int * 2^-52, y = int  (f64 only)
+/// frames 2000..2003 ("ULP slivers"): x = base + int * step, y = int
+///   2000: 1 + int * 2^-52 (f64 only)      2001: -2 + int * 2^-52 (f64 only; negative x)
+///   2002: 1 + int * 2^-23 (f32 and f64)   2003: -2 + int * 2^-23 (f32 and f64; negative x)
+/// every such x is exactly representable (|x| in [1, 2) has that spacing)
 pub const ULP_FRAME: i32 = 2000;
+pub fn ulp_frame(k: i32) -> Option<(f64, f64)> {
+    match k {
+        2000 => Some((1.0, f64::EPSILON)),
+        2001 => Some((-2.0, f64::EPSILON)),
+        2002 => Some((1.0, f32::EPSILON as f64)),
+        2003 => Some((-2.0, f32::EPSILON as f64)),
+        _ => None,
+    }
+}
 pub fn frame_xy(p: P, k: i32) -> (f64, f64) {
-    if k == ULP_FRAME {
-        (1.0 + p.0 as f64 * f64::EPSILON, p.1 as f64)
+    if let Some((base, step)) = ulp_frame(k) {
+        (base + p.0 as f64 * step, p.1 as f64)
     } else {
         (frame_value(p.0 as f64, k), frame_value(p.1 as f64, k))
     }
@@ -102,14 +114,14 @@ pub fn snap<F: Fl>(mp: &MultiPolygon<F>, k: i32, mag: f64) -> Snapped {
     let mut axis = 0u8;
     let mut one = |c: F, h: &mut u64| -> (i64, i64) {
         axis ^= 1; // 1 = x, 0 = y (coordinates are visited x, y, x, y, ...)
-        if k == ULP_FRAME {
+        if let Some((base, step)) = ulp_frame(k) {
             let raw = c.to_f64();
             fnv(h, raw.to_bits());
             if !raw.is_finite() {
                 return (COORD_CAP as i64, DEV_CAP);
             }
-            let n = if axis == 1 { ((raw - 1.0) / f64::EPSILON).round() } else { raw.round() };
-            let back = if axis == 1 { 1.0 + n * f64::EPSILON } else { n };
+            let n = if axis == 1 { ((raw - base) / step).round() } else { raw.round() };
+            let back = if axis == 1 { base + n * step } else { n };
             if n.abs() > COORD_CAP {
                 return (COORD_CAP as i64, DEV_CAP);
             }
